@@ -124,21 +124,25 @@ CLAIMED.update({
             "(C04_index_spec); random access through that index returns residues s..e for all 1<=s<=e<=n (C04_random_access); "
             "duplicate names and empty files are rejected; C04_stream_back: index the file, stream the derived assembly back "
             "through that index = every record in order, wrapped at L, residues outside ACGTacgt replaced by the gap character, "
-            "for every index buffer, stream buffer and line length. The pinned commit's scanner is "
+            "for every index buffer, stream buffer and line length. Record names are what bytes.split() takes as a word (the model "
+            "distinguishes the white space of bytes methods from that of str methods: FS GS RS US are name bytes for the indexer "
+            "but separators for the .fai reader, which then fails loudly -- C17/C15). The pinned commit's scanner is "
             "refuted (last residue dropped without final newline; fixed). " + CORR,
             NOTE, "Coq proof (line-scanner fold vs render, seek arithmetic) + in-Coq correspondence (exhaustive tiny layouts + random + malformed stream)",
             "DESIGN.md 6/C04"),
     "C05": ("Coq theorems for every assembly satisfying the stated well-formedness (agp_wf / tpf_wf, satisfiable, examples "
             "proved): parse_agp(format_agp a) = a, canonical text reproduced byte for byte, the same for TPF, AGP->TPF->parse = "
-            "drop_tags, and for EVERY text: a successful parse has exactly one row per non-blank non-comment line. " + CORR +
-            "Line-level corruptions are compared with the model (Ok/Err and value).",
+            "drop_tags, and for EVERY text: a successful parse has exactly one row per non-blank non-comment line. agp_wf allows "
+            "empty tag columns between tags (only the last tag must be non-empty and not end in white space). " + CORR +
+            "Line-level corruptions are compared with the model (Ok/Err and value); asm-format itself is run on 1-3 input files "
+            "to -o FILE and to STDOUT (every row of every input must arrive).",
             NOTE + "Text iteration as with io.StringIO (LF-terminated lines); ASCII; int() as in Py/Dec.v.",
             "Coq proof (split/join/strip lemmas, fold invariant) + in-Coq correspondence on generated and corrupted texts",
             "DESIGN.md 6/C05"),
     "C06": ("Coq theorems for EVERY assembly (hence every remapped or FASTA-derived one): the lines format_agp writes are the "
             "decimal rendering of a numeric view that tiles each object from 1, numbers parts 1,2,3.., has object span = "
             "component span on W lines and = stated length on U lines, ends at the scaffold length, and carries U/type/yes; "
-            "format_agp is total on valid strands. " + CORR + "Independent AGP column checker as oracle, also on asm-format and on the .agp cache of indexed FASTA files.",
+            "format_agp is total on valid strands. " + CORR + "Independent AGP column checker as oracle, also on asm-format, on the .agp cache of indexed FASTA files and on whatever cache file an indexing run leaves behind when it meets an I/O error at its k-th file operation.",
             NOTE, "Coq proof (induction over rows) + in-Coq correspondence + AGP column checker", "DESIGN.md 6/C06"),
     "C07": ("Coq theorems: C07_gap_provenance, end to end through `remap` for ALL inputs, ALL Pretext maps (garbage included), "
             "all texel sizes and configurations: every gap row of every output scaffold is the configured join gap or a gap "
@@ -146,11 +150,17 @@ CLAIMED.update({
             "every fusion boundary carries the join gap, two fragments are directly adjacent only inside one piece, and in "
             "left-over rows only if they were adjacent rows of the input (JoinGaps.v); C07_output_scaffolds_well_formed: every "
             "output scaffold of every completed run, with no hypothesis at all, is non-empty and begins and ends with a fragment; C18 (no terminal gap in any overlap "
-            "result after any edit sequence), C12 (lookups strip terminal gaps). That a kept input gap still separates the SAME "
-            "two contigs, and the join-gap clause for non-neighbours on PretextView-model maps, are decided by the oracle that "
-            "walks every output scaffold against the input adjacencies. The pinned commit's gapless left-over join is refuted "
+            "result after any edit sequence), C12 (lookups strip terminal gaps). C07_neighbour_gaps, END TO END through `remap` for "
+            "ALL inputs (rows >= 1 bp) and ALL maps: two consecutive fragments of an output scaffold with the gap rows between them "
+            "are a join (exactly the join gap), or pieces of two contigs that were consecutive in ONE input scaffold with exactly the "
+            "same gap run between them (either reading direction), or -- inside a left-over scaffold only -- two never-found contigs "
+            "with a found one between them, separated by the single input gap that preceded the second (this third case was FOUND BY "
+            "THE PROOF: the two-case statement is refuted in Coq, C07_two_case_statement_refuted, and reproduced on /repo; it cannot "
+            "arise on maps that tile every scaffold, so it is an edge-of-hypothesis behaviour, DESIGN 13.5). The same three-case "
+            "statement is the oracle that walks every output scaffold against the input on every generated case (PretextView-model "
+            "maps: first two cases only). The pinned commit's gapless left-over join is refuted "
             "in Coq, reproduced, fixed, and kept in the corpus. " + PIPE,
-            NOTE, "Coq proof (pipeline invariant for gap rows, fold invariants of the fusion) + in-Coq correspondence of the pipeline + adjacency oracle", "DESIGN.md 6/C07, 13"),
+            NOTE, "Coq proof end to end (gap provenance, neighbour gaps, well-formed outputs; fold invariants of the fusion) + in-Coq correspondence of the pipeline + neighbour oracle", "DESIGN.md 6/C07, 13"),
     "C08": ("Coq theorem C08_null_map_identity, END TO END through `remap`, no size bound: for every input of well-formed "
             "scaffolds with distinct names and contigs, every texel size and every null map (each scaffold whole, forward, "
             "unpainted, untagged, its bait reaching the last row and ending within one texel of the scaffold end; any subset of "
